@@ -185,6 +185,8 @@ def order_bounded():
     entries = ["a", "b", "c", "sub.x", "sub.y"]
     singles = [list(p) for n in (1, 2, 3) for p in itertools.permutations(entries, n)]
     sets = [[s] for s in singles] + [[s1, s2] for s1 in singles if len(s1) <= 2 for s2 in singles if len(s2) <= 2 and s1 != s2]
+    # ... and the empty signature ("the method can be called without arguments") next to a non-empty one, in either position
+    sets += [[[], s_] for s_ in singles[:25]] + [[s_, []] for s_ in singles[:25]] + [[[]]]
     want = {}
     for i, sigs in enumerate(sets):
         G.add_method(svc, f"M{i}", ".acme.ord.v1.Req", ".acme.ord.v1.Resp", signatures=[",".join(s) for s in sigs])
